@@ -133,10 +133,10 @@ def fill_meta(ids):
         d = os.path.join(base, sid)
         meta_p = os.path.join(d, "meta.json")
         meta = json.load(open(meta_p)) if os.path.exists(meta_p) else {"id": sid}
-        m = re.search(r"c(\d\d)([ab])$", sid)
+        m = re.search(r"c(\d\d)([abc])$", sid)
         meta["property"] = "C" + m.group(1)
-        meta["round"] = 2 if sid.startswith("r2") else 1
-        which = 1 if m.group(2) == "a" else 2
+        meta["round"] = int(sid[1]) if sid.startswith("r") and sid[1].isdigit() else 1
+        which = "abc".index(m.group(2)) + 1
         notes_p = os.path.join(d, "notes.md")
         title, need = "", ""
         if os.path.exists(notes_p):
@@ -144,7 +144,7 @@ def fill_meta(ids):
             heads = [i for i, l in enumerate(notes) if re.match(r"^#+\s+Mutation\s+%d\b" % which, l)]
             if heads:
                 start = heads[0]
-                end = next((i for i in range(start + 1, len(notes)) if re.match(r"^#+\s+Mutation\s+%d\b" % (3 - which), notes[i]) or re.match(r"^##\s+(Commands|Demonstrations|Demos|Verification)", notes[i])), len(notes))
+                end = next((i for i in range(start + 1, len(notes)) if re.match(r"^#+\s+Mutation\s+\d\b", notes[i]) or re.match(r"^##\s+(Commands|Demonstrations|Demos|Verification)", notes[i])), len(notes))
                 sec = notes[start:end]
                 title = re.sub(r"^#+\s+", "", sec[0]).strip()
                 for i, l in enumerate(sec):
